@@ -33,6 +33,7 @@ Ent &slot(const std::string &s);
 bool hasSlot(const std::string &s);
 nix::DataType dtOf(const std::string &t);
 std::string dimTok(const nix::Dimension &dim);
+std::string dumpFile(const nix::File &f);
 std::string variantTok(const nix::Variant &v);
 }}
 #endif
